@@ -8,18 +8,21 @@ import z3
 PROP = "C06"
 LEVEL = "model_checking"
 ENGINE = "cfgsat"          # no shadow loader, no shadow-fidelity self-check: the subject is a grammar, not Python data flow
-NMAX = {"quick": 7, "thorough": 9}
+NMAX = {"quick": 7, "thorough": 10}
+SPLIT_FROM = 8           # from this N on, q1 is split by operator position into one task per position
 DUMP_NMAX = {"quick": 4, "thorough": 5}
-DUMP_K = {"quick": 400, "thorough": 3000}
-COVER_NMAX = {"quick": 9, "thorough": 13}
+DUMP_K = {"quick": 5000, "thorough": 60000}
+DUMP_SHARDS = {4: 1, 5: 4}   # N -> number of tasks the enumeration is spread over (by first token)
+COVER_NMAX = {"quick": 10, "thorough": 14}
 TIMEOUT_MS = {"quick": 120_000, "thorough": 600_000}
 SEED = int(os.environ.get("VERIF_SEED", "0") or 0)
 DUMP_LITERALS = ("INT_LIT", "STRING_LIT", "BOOL_LIT", "NULL_LIT")
 BOUNDS = {
     t: {"token strings": f"every string of exactly N tokens for each N = 1..{NMAX[t]} over all significant terminals Lark "
                          "compiled from cel.lark (one solver query per N and question; tokens are bit-vectors)",
-        "questions per N": "q1 structure (accepted by both grammars, different operator facts), q2 reference accepts / real "
-                           "rejects, q3 ambiguity of the real grammar; converse inclusion reported only",
+        "questions per N": "q1 structure (accepted by both grammars, different operator facts; from N = 8 one query per "
+                           "operator token position), q2 reference accepts / real rejects, q3 ambiguity of the real grammar; "
+                           "converse inclusion reported only",
         "operator facts": "(kind, operator token position, node span) for ?: (both tokens) || && < <= > >= == != in + - * / % "
                           "! unary- . .f() [] {} f() .f() ( ) [..] {..} literal ident",
         "per-query timeout": f"{TIMEOUT_MS[t] // 1000} s",
@@ -49,13 +52,15 @@ TRUSTED = ["z3 5.1", "CPython 3.12", "vf.cfgsat.encode", "vf.oracles.c06 referen
 def tasks(tier):
     ts = []
     for N in range(NMAX[tier], 0, -1):          # largest first: better packing over the worker pool
-        for q in ("structure", "language", "ambiguity"):
-            ts.append({"q": q, "N": N, "tier": tier})
+        parts = N if N >= SPLIT_FROM else 1
+        ts += [{"q": "structure", "N": N, "tier": tier, "part": [k, parts]} for k in range(parts)]
+        ts += [{"q": q, "N": N, "tier": tier} for q in ("language", "ambiguity")]
         if N == NMAX[tier]:
             ts.append({"q": "cover", "N": COVER_NMAX[tier], "tier": tier})
             ts.append({"q": "lexer", "N": 0, "tier": tier})
     for N in range(DUMP_NMAX[tier], 0, -1):
-        ts.append({"q": "dump", "N": N, "tier": tier})
+        of = DUMP_SHARDS.get(N, 1)
+        ts += [{"q": "dump", "N": N, "tier": tier, "part": [k, of]} for k in range(of)]
     return ts
 
 
@@ -101,12 +106,6 @@ def _obligation(res, ob, r):
         res["unknown"] += 1
 
 
-def _shard(P, task):
-    """optional partition of the word space by first token, so that one N can be spread over several processes"""
-    k, of = task.get("shard", (0, 1))
-    return [z3.URem(P.W[0], of) == k] if of > 1 else []
-
-
 def _witness(check, text):
     return {"check": f"c06.{check}", "args": {"text": text}}
 
@@ -118,7 +117,7 @@ def _funcs(real):
 def run_task(task, kf):
     from ..cfgsat import encode as E
     real = E.Real()
-    res = _result(f"C06/{task['q']}/N={task['N']}" + ("/shard=%d.%d" % tuple(task["shard"]) if "shard" in task else ""))
+    res = _result(f"C06/{task['q']}/N={task['N']}" + ("/part=%d.%d" % tuple(task["part"]) if task.get("part", [0, 1])[1] > 1 else ""))
     res["funcs"] = _funcs(real)
     if real.conflicts:
         res["info"]["lalr_conflicts"] = real.conflicts[:10]
@@ -133,12 +132,13 @@ def _structure(E, real, task, res, kf):
     N, tier = task["N"], task["tier"]
     P = E.Problem(real, N)
     Fg, Fr = E.structure(P.G, P.eg), E.structure(P.Rg, P.er)
-    keys = sorted(set(Fg) | set(Fr))
+    part, of = task.get("part", (0, 1))
+    keys = sorted(k for k in set(Fg) | set(Fr) if k[1] % of == part)     # facts anchored at this task's token positions
     F = z3.BoolVal(False)
     diff = z3.Or([z3.Xor(Fg.get(k, F), Fr.get(k, F)) for k in keys]) if keys else F
     ndefs = len(P.eg.defs) + len(P.er.defs)
     res["transitions"] = ndefs
-    both = [P.base + _shard(P, task), P.eg.defs, P.er.defs, [P.eg.acc, P.er.acc]]
+    both = [P.base, P.eg.defs, P.er.defs, [P.eg.acc, P.er.acc]]
     r, m = _query(res, tier, "q1 exists w in L(G) & L(R) with facts_G(w) != facts_R(w)", N, ndefs, *both, [diff])
     res["samples"][-1]["operator_facts"] = len(keys)
     _obligation(res, "C06/structure", r)
@@ -151,8 +151,8 @@ def _structure(E, real, task, res, kf):
                                   "note": "token string accepted by cel.lark and by the CEL grammar with different operator structure"})
     # sampled words of L(G) & L(R): solver-model facts vs the tree the real LALR parser builds; oracle replay by the driver
     kinds = sorted({k[0] for k in Fg})
-    for n in range(min(4, len(kinds))):
-        kind = kinds[(N + n * max(1, len(kinds) // 4)) % len(kinds)]
+    kinds = kinds[part::of][:3] if of > 1 else [kinds[(N + n * max(1, len(kinds) // 4)) % len(kinds)] for n in range(min(4, len(kinds)))]
+    for kind in kinds:
         r, m = _query(res, tier, f"sample word containing a {kind} node", N, ndefs, *both,
                       [z3.Or([v for k, v in Fg.items() if k[0] == kind])])
         if m is not None:
@@ -223,79 +223,104 @@ def _ambiguity(E, real, task, res, kf):
 
 
 # ----------------------------------------------------------------------------- dump round trip on enumerated solver models
-def _dump_one(real, P, m, names, res, kf, region_vars):
-    from ..oracles import c06 as O
-    text, _ = real.render(names)
-    ok, detail = O.dump_roundtrip(text, fresh=False)   # this process built the parser itself, once
-    if ok:
-        return
-    ob = types.SimpleNamespace(id="C06/dump-roundtrip", observe={})
-    hits = kf.match(ob, m, region_vars) if kf is not None and m is not None else []
-    for e, _ in hits:
-        res["known_hits"].setdefault(e["id"], {"text": e["text"], "witness": _witness("dump_roundtrip", text),
-                                               "obligation": ob.id})
-    if not hits:
-        res["violations"].append({"obligation": "C06/dump-roundtrip", "harness": res["id"],
-                                  "witness": _witness("dump_roundtrip", text), "inputs": {"tokens": names},
-                                  "note": "found by enumeration of solver models, not a solver verdict: " + detail[:200]})
+class _Dump:
+    """runs the concrete round-trip oracle on solver models; failures are grouped by a signature of the word's shape so that
+    one defect does not crowd out another (one violation candidate per signature and task)"""
 
+    def __init__(self, real, P, res, kf):
+        self.real, self.P, self.res, self.kf = real, P, res, kf
+        self.words = self.failures = self.known = 0
+        self.seen = set()
+        # names a known-finding region may use: has_<rule> (a node of that rule occurs in the parse), empty_list, empty_map,
+        # int_then_dot (an INT_LIT token directly followed by '.': the dump glues them into a float prefix)
+        by = {}
+        for pidx, i, j, spl, a in P.eg.apps:
+            A, syms, _ = P.G.prods[pidx]
+            by.setdefault("has_" + A, []).append(a)
+            if A in ("list_lit", "map_lit") and len(syms) == 2:
+                by.setdefault("empty_list" if A == "list_lit" else "empty_map", []).append(a)
+        tid = P.tid
+        if "INT_LIT" in tid and "DOT" in tid:
+            by["int_then_dot"] = [z3.And(P.W[i] == tid["INT_LIT"], P.W[i + 1] == tid["DOT"]) for i in range(P.N - 1)]
+        self.vars = {"has_" + A: z3.BoolVal(False) for A in P.G.nts}
+        self.vars.update({k: z3.BoolVal(False) for k in ("empty_list", "empty_map", "int_then_dot")})
+        self.vars.update({k: z3.Or(v) for k, v in by.items() if v})
+        self.features = ["empty_list", "empty_map", "int_then_dot"] + sorted(k for k in self.vars if k.startswith("has___"))
 
-def _region_vars(P):
-    """names a known-finding region may use: has_<rule> (a node of that rule occurs in the parse), empty_list, empty_map"""
-    by = {}
-    for pidx, i, j, spl, a in P.eg.apps:
-        A, syms, _ = P.G.prods[pidx]
-        by.setdefault("has_" + A, []).append(a)
-        if A in ("list_lit", "map_lit") and len(syms) == 2:
-            by.setdefault("empty_list" if A == "list_lit" else "empty_map", []).append(a)
-    vars = {"has_" + A: z3.BoolVal(False) for A in P.G.nts}
-    vars.update({"empty_list": z3.BoolVal(False), "empty_map": z3.BoolVal(False)})
-    vars.update({k: z3.Or(v) for k, v in by.items()})
-    return vars
+    def __call__(self, m):
+        from ..oracles import c06 as O
+        names = self.P.word(m)
+        text, _ = self.real.render(names)
+        self.words += 1
+        ok, detail = O.dump_roundtrip(text, fresh=False)   # this process built the parser itself, once
+        if ok:
+            return
+        ob = types.SimpleNamespace(id="C06/dump-roundtrip", observe={})
+        hits = self.kf.match(ob, m, self.vars) if self.kf is not None else []
+        for e, _ in hits:
+            self.res["known_hits"].setdefault(e["id"], {"text": e["text"], "witness": _witness("dump_roundtrip", text),
+                                                        "obligation": ob.id})
+        if hits:
+            self.known += 1
+            return
+        self.failures += 1
+        sig = tuple(f for f in self.features if z3.is_true(m.eval(self.vars[f], True)))
+        if sig not in self.seen:
+            self.seen.add(sig)
+            self.res["violations"].append({"obligation": ob.id, "harness": self.res["id"], "witness": _witness("dump_roundtrip", text),
+                                           "inputs": {"tokens": names, "shape": list(sig)},
+                                           "note": "found by enumeration of solver models, not a solver verdict: " + detail[:200]})
+
+    def close(self, unknown, what):
+        res = self.res
+        res["obligations"] += 1
+        res["ob_ids"]["C06/dump-roundtrip"] = res["ob_ids"].get("C06/dump-roundtrip", 0) + 1
+        if unknown:
+            res["unknown"] += 1
+        elif not self.failures:
+            res["discharged"] += 1
+        return {"words_round_tripped": self.words, "failures": self.failures, "failures_in_known_findings": self.known,
+                "failure_shapes": [list(x) for x in sorted(self.seen)], "kind": "enumeration of solver models, not a solver verdict",
+                **what}
 
 
 def _dump(E, real, task, res, kf):
     N, tier = task["N"], task["tier"]
+    part, of = task.get("part", (0, 1))
     P = E.Problem(real, N, want_ref=False)
     res["funcs"] += ["celpy/celparser.py:tree_dump", "celpy/celparser.py:DumpAST"]
     res["transitions"] = len(P.eg.defs)
     drop = [t for t in real.terms if t.endswith("_LIT") and t not in DUMP_LITERALS]
-    s = _solver(tier, P.base, P.eg.defs, [P.eg.acc], [w != P.tid[t] for w in P.W for t in drop])
-    rv = _region_vars(P)
-    before, count, r = len(res["violations"]), 0, "sat"
-    while count < DUMP_K[tier]:
+    s = _solver(tier, P.base, P.eg.defs, [P.eg.acc], [w != P.tid[t] for w in P.W for t in drop],
+                [z3.URem(P.W[0], of) == part] if of > 1 else [])
+    d = _Dump(real, P, res, kf)
+    r = "sat"
+    while d.words < DUMP_K[tier]:
         r = _check(res, s, "next word of L(G) (blocking clauses)", N, len(P.eg.defs))
         if r != "sat":
             break
         m = s.model()
-        count += 1
-        _dump_one(real, P, m, P.word(m), res, kf, rv)
+        d(m)
         s.add(P.block(m))
     res["samples"] = res["samples"][:2] + res["samples"][-1:]
-    res["obligations"] += 1
-    res["ob_ids"]["C06/dump-roundtrip"] = 1
-    if r == "unknown":
-        res["unknown"] += 1
-    elif len(res["violations"]) == before:
-        res["discharged"] += 1
     res["budget_exhausted"] = r == "sat"
-    res["info"]["dump"] = {"N": N, "words_round_tripped": count, "language_exhausted": r == "unsat",
-                           "failures": len(res["violations"]) - before, "kind": "enumeration of solver models, not a solver verdict"}
+    res["info"]["dump"] = d.close(r == "unknown", {"N": N, "part": f"{part + 1}/{of}", "language_exhausted": r == "unsat"})
 
 
 def _cover(E, real, task, res, kf):
     """one shortest word per production of G (production in the parse tree), dumped and re-parsed"""
     tier = task["tier"]
     res["funcs"] += ["celpy/celparser.py:tree_dump", "celpy/celparser.py:DumpAST"]
-    todo = set(range(len(real.prods)))
-    before, covered = len(res["violations"]), {}
+    todo, covered, unknown = set(range(len(real.prods))), {}, False
+    tot = dict(words=0, failures=0, known=0, shapes=set())
     for N in range(1, task["N"] + 1):
         if not todo:
             break
         P = E.Problem(real, N, want_ref=False)
         res["transitions"] += len(P.eg.defs)
         s = _solver(tier, P.base, P.eg.defs, [P.eg.acc])
-        rv = _region_vars(P)
+        d = _Dump(real, P, res, kf)
+        d.seen = tot["shapes"]
         by = {}
         for pidx, i, j, spl, a in P.eg.apps:
             by.setdefault(pidx, []).append(a)
@@ -305,22 +330,17 @@ def _cover(E, real, task, res, kf):
             r = _check(res, s, f"word whose parse uses production {pidx}", N, len(P.eg.defs))
             m = s.model() if r == "sat" else None
             s.pop()
-            if r == "unknown":
-                res["unknown"] += 1
-            if m is None:
-                continue
-            todo.discard(pidx)
-            covered[pidx] = N
-            _dump_one(real, P, m, P.word(m), res, kf, rv)
+            unknown |= r == "unknown"
+            if m is not None:
+                todo.discard(pidx)
+                covered[pidx] = N
+                d(m)
+        tot["words"] += d.words; tot["failures"] += d.failures; tot["known"] += d.known
     res["samples"] = res["samples"][:1] + res["samples"][-2:]
-    res["obligations"] += 1
-    res["ob_ids"]["C06/dump-roundtrip"] = 1
-    if len(res["violations"]) == before and not res["unknown"]:
-        res["discharged"] += 1
-    A = lambda p: f"{real.prods[p][0]} -> {' '.join(real.prods[p][1])}"
-    res["info"]["production_coverage"] = {"productions": len(real.prods), "covered": len(covered), "max_tokens": task["N"],
-                                          "not_reached": [A(p) for p in sorted(todo)], "failures": len(res["violations"]) - before,
-                                          "kind": "enumeration of solver models, not a solver verdict"}
+    d.words, d.failures, d.known = tot["words"], tot["failures"], tot["known"]
+    show = lambda p: f"{real.prods[p][0]} -> {' '.join(real.prods[p][1])}"
+    res["info"]["production_coverage"] = d.close(unknown, {"productions": len(real.prods), "covered": len(covered),
+                                                          "max_tokens": task["N"], "not_reached": [show(p) for p in sorted(todo)]})
 
 
 # ----------------------------------------------------------------------------- lexer callback + LALR construction log
